@@ -64,20 +64,15 @@ Theorem C16_cte_encoder_partial : forall history es,
 Proof. exact cte_reuse. Qed.
 Print Assumptions C16_cte_encoder_partial.
 
-(* ---- type caches: violated; holds while no unsupported type was met ---- *)
-Theorem C16_cache_refuted : forall dynamic, exists history t,
-  run_reused cache_init (cache_call dynamic) history t <> run_fresh cache_init (cache_call dynamic) t.
-Proof. exact cache_refuted. Qed.
-Print Assumptions C16_cache_refuted.
-
-Theorem C16_cache_partial : forall dynamic history t,
-  Forall all_supported history ->
+(* ---- type caches: holds, histories with unsupported types included (a failed
+   generation deletes its placeholders before the error travels on) ---- *)
+Theorem C16_cache_reuse : forall dynamic history t,
   run_reused cache_init (cache_call dynamic) history t = run_fresh cache_init (cache_call dynamic) t.
-Proof. exact cache_reuse_when. Qed.
-Print Assumptions C16_cache_partial.
+Proof. exact cache_reuse. Qed.
+Print Assumptions C16_cache_reuse.
 
-(* ---- the full property is violated (by the CBE encoder, the CTE encoder fed a
-   stream without OnBeginDocument, and the type caches) ---- *)
+(* ---- the full property is violated (by the CBE encoder, and by the CTE encoder
+   when it is fed a stream without OnBeginDocument) ---- *)
 Theorem C16_full_refuted : ~ C16_full.
 Proof.
   intros (_ & _ & H & _). destruct cbe_enc_refuted as [h [es N]]. apply N, H.
@@ -108,16 +103,7 @@ Proof. exact cbe_enc_refuted_bytes. Qed.
 Example C16_ex_cte_header : has_header [CBegin; CVersion 0; CList; CPosInt 1; CEndContainer; CEndDoc].
 Proof. exists 0, [CList; CPosInt 1; CEndContainer; CEndDoc]. reflexivity. Qed.
 
-Example C16_ex_cache_supported :
-  Forall all_supported [TComp 10 [(true, TLeaf 1); (true, TLeaf 2)]; TComp 20 [(true, TDyn (TLeaf 1))]].
-Proof. repeat constructor. Qed.
-
-Example C16_ex_cache_hang :
-  run_reused cache_init (cache_call true) [TBad 1] (TBad 1) = (CHang, []) /\
-  run_fresh cache_init (cache_call true) (TBad 1) = (CErr, []).
-Proof. exact cache_refuted_hang. Qed.
-
-Example C16_ex_cache_accepts :
-  run_reused cache_init (cache_call false) [TBad 1] (TComp 2 [(true, TLeaf 3); (false, TBad 1)]) = (COk, [2; 3]) /\
-  run_fresh cache_init (cache_call false) (TComp 2 [(true, TLeaf 3); (false, TBad 1)]) = (CErr, []).
-Proof. exact cache_refuted_accepts. Qed.
+Example C16_ex_cache_after_failure :
+  run_all (cache_call true) cache_init [TBad 1; TBad 1; TComp 2 [(true, TLeaf 3); (true, TBad 1)]; TLeaf 3]
+  = [(CErr, []); (CErr, []); (CErr, []); (COk, [3])].
+Proof. exact cache_after_failure. Qed.
